@@ -227,13 +227,14 @@ SLIM = {"reset": ("run", "ns", "nc"), "get": ("ret",), "fill": ("slot", "stamp")
         "consume": ("stamps",), "post": ("stamps",), "reap": ("ret",), "read": ("val",)}
 
 
-def judge(chk, runs, tag, batch=150000):
-    """B2: runs -> list of (run index in `runs`, event index within run or -1, clause). One TLC call per batch."""
-    bad = []
+def judge(chk, runs, tag, batch=150000, parallel=1):
+    """B2: runs -> list of (run index in `runs`, event index within run or -1, clause).
+    One TLC call per batch of about `batch` events, `parallel` calls at a time."""
+    import concurrent.futures as cf
+    parts = []      # (path, lines, where)
     k = 0
-    part = 0
     while k < len(runs):
-        path = os.path.join(chk.work, "trace_%s_%d.ndjson" % (tag, part))
+        path = os.path.join(chk.work, "trace_%s_%d.ndjson" % (tag, len(parts)))
         lines = 0
         where = []      # trace line (1-based) -> (run idx, event idx)
         first = k
@@ -250,17 +251,25 @@ def judge(chk, runs, tag, batch=150000):
                     where.append((k, j))
                     lines += 1
                 k += 1
+        parts.append((path, lines, where))
+
+    def one(part):
+        path, lines, where = part
         res = core.run_tlc("RingTrace.tla", "RingTrace.cfg", workers=1, env={"TRACE": path}, timeout=3000,
                            xmx="6g", xss="512m")
         core.tlc_must_pass(res, "RingTrace " + tag)
         j = res.printed("RINGJUDGE")
-        if len(j) != 1 or j[0]["n"] != lines:
+        bl = res.printed("RINGBAD")
+        if len(j) != 1 or j[0]["n"] != lines or j[0]["nbad"] != len(bl):
             raise core.ToolError("RingTrace did not report on all %d events: %s" % (lines, res.out[-1500:]))
-        chk.add_tlc(res)
-        for b in j[0]["bad"]:
-            r, e = where[b["line"] - 1]
-            bad.append((r, e, b["why"]))
-        part += 1
+        os.unlink(path)
+        return res, [where[b["line"] - 1] + (b["why"],) for b in bl]
+
+    bad = []
+    with cf.ThreadPoolExecutor(max_workers=parallel) as pool:
+        for res, bl in pool.map(one, parts):
+            chk.add_tlc(res)
+            bad += bl
     return bad
 
 
@@ -268,8 +277,8 @@ def shape_of(evs, upto):
     """schedule shape of a rejected completion read: event kinds since the reap that returned the reference"""
     kinds = []
     for ev in evs[:upto + 1][::-1]:
-        if ev["ev"] == "skip":
-            continue
+        if ev["ev"] not in ("reap", "post", "read"):
+            continue                      # only what happens on the completion ring matters
         kinds.append(ev["ev"])
         if ev["ev"] == "reap":
             break
@@ -281,12 +290,13 @@ def shape_of(evs, upto):
     return ",".join(out)
 
 
-def report(chk, runs, plans, bad, source):
+def report(chk, batch, bad):
     """turn judged rejections into violations; returns set of rejected run indices"""
     rejected = set()
     for (r, e, why) in bad:
         rejected.add(r)
-        reset, evs = runs[r]
+        reset, evs = batch.runs[r]
+        source = batch.source[r]
         ev = evs[e] if e >= 0 else reset
         sig = {"clause": why, "op": ev["ev"], "build": reset.get("build")}
         if why == "content_overwritten_between_return_and_read":
@@ -294,10 +304,11 @@ def report(chk, runs, plans, bad, source):
         pos = ev.get("st")
         h = reset["h"]
         wrapped = pos is not None and any(x >= h for x in pos) and any(0 <= x < h for x in [reset["sq0"], reset["cq0"]])
-        what = "%s: %s (ring sizes %d/%d, flags %d, %s build, start sq=2^32-%d cq=2^32-%d, step %d%s; %s)" % (
+        pos0 = lambda m: ("2^32-%d" % (h - m)) if m < h else str(m - h)
+        what = "%s: %s (ring sizes %d/%d, flags %d, %s build, counters start at sq=%s cq=%s, step %d%s; %s)" % (
             ev["ev"], why, reset["ns"], reset["nc"], reset.get("flags", 0), reset.get("build"),
-            h - reset["sq0"], h - reset["cq0"], e, ", after the u32 wrap" if wrapped else "", source)
-        plan = plans[r] if plans is not None else {"random": {k: reset[k] for k in reset if k in ("seed", "run")}}
-        chk.violate(sig, what, {"source": source, "plan": plan, "reset": {k: reset[k] for k in ("ns", "nc", "flags", "h", "sq0", "cq0", "build")},
-                                "events": [{k: v for k, v in x.items()} for x in evs[:e + 1]][-40:], "clause": why})
+            pos0(reset["sq0"]), pos0(reset["cq0"]), e, ", after the u32 wrap" if wrapped else "", source)
+        chk.violate(sig, what, {"source": source, "plan": batch.plans[r], "random": batch.random[r],
+                                "reset": {k: reset[k] for k in ("ns", "nc", "flags", "h", "sq0", "cq0", "build")},
+                                "events": evs[max(0, e - 40):e + 1], "clause": why})
     return rejected
